@@ -151,23 +151,70 @@ func (o *attributeSlice) Call(c px.Context, method px.ObjFunc, args []px.Value, 
 }
 
 func (o *attributeSlice) Equals(other interface{}, g px.Guard) bool {
-	if ov, ok := other.(*attributeSlice); ok && o.typ.Equals(ov.typ, g) {
-		// Compare the attributes that participate in equality (all of them unless declared otherwise). An
-		// attribute that was not given is represented by its default.
-		ai := o.typ.AttributesInfo()
-		positions := ai.EqualityAttributeIndex()
-		if positions == nil {
-			positions = make([]int, len(ai.Attributes()))
-			for i := range positions {
-				positions[i] = i
-			}
-		}
+	ov, ok := other.(*attributeSlice)
+	if !ok {
+		return false
+	}
+	// Compare the attributes that participate in equality (all of them unless declared otherwise). An
+	// attribute that was not given is represented by its default.
+	ai := o.typ.AttributesInfo()
+	positions := equalityPositions(ai)
+	if o.typ.Equals(ov.typ, g) {
 		for _, i := range positions {
 			if !px.Equals(o.valueAt(ai, i), ov.valueAt(ai, i), g) {
 				return false
 			}
 		}
 		return true
+	}
+
+	// Instances of different types are equal only when both types declare equality_include_type => false and
+	// both compare the same attributes. Those attributes are then compared by name.
+	if equalityIncludesType(o.typ) || equalityIncludesType(ov.typ) {
+		return false
+	}
+	oi := ov.typ.AttributesInfo()
+	otherPositions := equalityPositions(oi)
+	if len(positions) != len(otherPositions) {
+		return false
+	}
+	for _, i := range positions {
+		j, ok := oi.NameToPos()[ai.Attributes()[i].Name()]
+		if !ok || !containsInt(otherPositions, j) || !px.Equals(o.valueAt(ai, i), ov.valueAt(oi, j), g) {
+			return false
+		}
+	}
+	return true
+}
+
+// equalityPositions returns the positions of the attributes that participate in equality
+func equalityPositions(ai px.AttributesInfo) []int {
+	positions := ai.EqualityAttributeIndex()
+	if positions == nil {
+		positions = make([]int, len(ai.Attributes()))
+		for i := range positions {
+			positions[i] = i
+		}
+	}
+	return positions
+}
+
+func equalityIncludesType(t px.ObjectType) bool {
+	switch t := t.(type) {
+	case *objectType:
+		return t.equalityIncludeType
+	case *objectTypeExtension:
+		return t.baseType.equalityIncludeType
+	default:
+		return true
+	}
+}
+
+func containsInt(s []int, v int) bool {
+	for _, e := range s {
+		if e == v {
+			return true
+		}
 	}
 	return false
 }
